@@ -440,6 +440,22 @@ def rename_values(
 
         initializer_values_by_graph[graph] = tuple(value for value, _ in initializer_pairs)
 
+    # The name setter of a backing tensor is the only step that can still fail (for
+    # example, a protobuf-backed tensor rejects a name it cannot encode). Rename the
+    # tensors first so that a failure leaves the values and initializers untouched.
+    renamed_tensors: list[tuple[_protocols.TensorProtocol, str | None]] = []
+    try:
+        for value, name in ordered_pairs:
+            tensor = value.const_value
+            if tensor is not None:
+                old_tensor_name = tensor.name
+                tensor.name = name
+                renamed_tensors.append((tensor, old_tensor_name))
+    except Exception:
+        for tensor, old_tensor_name in reversed(renamed_tensors):
+            tensor.name = old_tensor_name
+        raise
+
     for graph, initializer_values in initializer_values_by_graph.items():
         for value in initializer_values:
             assert value.name is not None, "Initializer values must have names"
